@@ -73,6 +73,12 @@ def _probe(name):
         if fn.startswith(src) or os.path.realpath(fn).startswith(src):
             PROBE.append((name, "library", os.path.relpath(os.path.realpath(fn), src), f.f_code.co_name, f.f_lineno))
             return
+        if fn.endswith(os.path.join("sim", "queries.py")):
+            # the battery only ever *calls the library*; a special method reached from there without a
+            # library frame in between was invoked by a C-level wrapper the library put around its function
+            # (e.g. a caching decorator hashing its arguments)
+            PROBE.append((name, "library", "(C-level wrapper of a library function called at sim/queries.py:%d)" % f.f_lineno, "wrapper", f.f_lineno))
+            return
         if fn.startswith(boot.VERIF_DIR):
             PROBE.append((name, "harness", os.path.relpath(fn, boot.VERIF_DIR), f.f_code.co_name, f.f_lineno))
             return
